@@ -242,6 +242,15 @@ func (env *Env) rangeAssume(st *State, v Val) {
 	}
 	if strings.HasPrefix(s, "Mp_") && len(env.qvars) == 0 {
 		emit(fmt.Sprintf("(<= 0 (mc_%s %s))", s, v.T))
+		// a map with a member is not empty (and so an empty map has no member)
+		if m, ok := types.Unalias(t).Underlying().(*types.Map); ok {
+			ks := env.sortOf(m.Key())
+			emit(fmt.Sprintf("(forall ((k %s)) (! (=> (select (mh_%s %s) k) (> (mc_%s %s) 0)) :pattern ((select (mh_%s %s) k))))", ks, s, v.T, s, v.T, s, v.T))
+			// ... and a non-empty map has a member (witness function)
+			wit := "mwit_" + s
+			env.c.decls.declFun(wit, []string{s}, ks)
+			emit(fmt.Sprintf("(=> (> (mc_%s %s) 0) (select (mh_%s %s) (%s %s)))", s, v.T, s, v.T, wit, v.T))
+		}
 	}
 }
 
